@@ -317,6 +317,15 @@ def s4_order_diff(ctx):
     qn = PCM + '._generate_rebalance_orders'
     fn = ctx.fn(qn)
     ps = summarise(ctx, qn, policy=default_policy)
+    # (a decorated method is summarised once per calling convention: the same path twice is one path)
+    seen_, uniq_ = set(), []
+    for p_ in ps:
+        import re as _re
+        k_ = (p_.outcome, cond_str(p_), _re.sub(r',\d+>', ',>', _re.sub(r'#\d+', '#', fmt(p_.value))) if p_.value is not None else None)      # (loop numbers differ between runs)
+        if k_ not in seen_:
+            seen_.add(k_)
+            uniq_.append(p_)
+    ps = uniq_
     nps = [p for p in ps if p.outcome == 'return']
     if not ctx.require(len(nps) == 1 and len(ps) == 1 if (len(nps) == 1 and len(ps) == 1) else None, 'C09.S4', '_generate_rebalance_orders has one path', fn.site(), [cond_str(p)[:80] for p in ps]):
         return
@@ -383,6 +392,20 @@ def s4_order_diff(ctx):
         if src[0] == 'call' and src[1] in (('meth', 'items'), ('meth', 'keys')) and len(src[2]) == 1:
             src = src[2][0]
     roots = {s[1] for s in T.subterms(src) if s[0] == 'var'}
+    # ... and not over a copy of the target from which entries were filtered out first
+    for s_ in T.subterms(src):
+        if s_[0] == 'comp' and len(s_[3]) == 1 and s_[3][0][2] and any(z_ == V('target_portfolio') for z_ in T.subterms(s_[3][0][1])) \
+                and not any(z_ == V('current_portfolio') for z_ in T.subterms(s_[3][0][1])):
+            flt = s_[3][0][2]
+            zero_q = [c_ for c_ in flt if c_[0] == 'not' and c_[1][0] == 'cmp' and c_[1][1] == '==' and ZERO in (c_[1][2], c_[1][3])
+                      and any(z_ == ('str', 'quantity') for z_ in T.subterms(c_))]
+            if zero_q:
+                ctx.violation('C09.S4', 'an order is considered for every asset of the target portfolio', fn.site(),
+                              'READ!: the orders are generated from a copy of the target that keeps only the entries with %s: a target of zero for a held asset - the instruction '
+                              'to sell it - is dropped before any difference is taken' % fmt(zero_q[0])[:80], key='C09.S4|every-target')
+                return
+            ctx.undecided('C09.S4', 'an order is considered for every asset of the target portfolio', fn.site(), 'the target is filtered first: %s' % fmt(flt[0])[:100])
+            return
     ctx.require('target_portfolio' in roots, 'C09.S4', 'an order is considered for every asset of the target portfolio', fn.site(), fmt(src)[:120], key='C09.S4|every-target')
     # quantity = target - current
     tq = ('sub', ('sub', V('target_portfolio'), asset), ('str', 'quantity'))
@@ -392,6 +415,17 @@ def s4_order_diff(ctx):
     # differences built first and iterated afterwards, private copies of the portfolios) is whatever that collection holds - not followed here
     unread = qty is not None and not ok and any(s_[0] in ('accum', 'comp', 'lc', 'havoc') or (s_[0] == 'bv' and s_ != asset) or (s_[0] == 'call' and s_[1][0] == 'fn')
                                                for s_ in T.subterms(qty))
+    # whatever the current side is read from: a filter that tests ONE side's quantity alone (`target[a]['quantity'] != 0`) drops exactly the flat targets - the
+    # instructions to liquidate - before any difference is taken
+    for f_ in ifs:
+        if f_[0] == 'not' and f_[1][0] == 'cmp' and f_[1][1] == '==' and ZERO in (f_[1][2], f_[1][3]) and qty is not None:
+            X_ = f_[1][3] if f_[1][2] == ZERO else f_[1][2]
+            if X_[0] == 'sub' and X_[2] == ('str', 'quantity') and not T.teq(X_, qty) and qty[0] == 'rat' and any(s_ == X_ for s_ in T.subterms(qty)) \
+                    and not any(s_ == V('current_portfolio') for s_ in T.subterms(X_)):
+                ctx.violation('C09.S4', 'an order is considered for every asset of the target portfolio', fn.site(),
+                              'READ!: assets are dropped where %s == 0 while the order quantity is %s: a target of zero for a held asset - the instruction to sell it - never '
+                              'becomes an order' % (fmt(X_)[:60], fmt(qty)[:80]), key='C09.S4|every-target')
+                return
     if unread:
         ctx.undecided('C09.S4', 'order quantity = target quantity - current quantity, asset by asset', fn.site(), 'quantity is %s' % fmt(qty)[:200])
         return
